@@ -227,6 +227,9 @@ def run_chunk(chunk, tier):
                     continue  # each unordered mixture once (owned by its first member in pool order)
                 for coeffs in itertools.product([1, 2, 3], repeat=n):
                     _check_mix(res, keys, coeffs, masses)
+                if n == 2:  # a trace component (either position): every fraction is proportional to coefficient x mass
+                    for coeffs in ((1, 1e-30), (1e-30, 1), (2, 1e-12), (1e-15, 3)):
+                        _check_mix(res, keys, coeffs, masses)
         res.sample(dict(layer="M", first=first))
     return res
 
@@ -256,7 +259,7 @@ def _check_mix(res, keys, coeffs, masses):
                 got = chempy.mass_fractions(stoich, substances=OrderedDict((k, chempy.Substance.from_formula(k)) for k in ks))
         except Exception as e:
             got = "EXC %s" % type(e).__name__
-        ok = isinstance(got, dict) and set(got) == set(exp) and all(got[k] > 0 and abs(got[k] - exp[k]) <= 1e-12 for k in exp) and abs(sum(got.values()) - 1) <= 1e-12
+        ok = isinstance(got, dict) and set(got) == set(exp) and all(got[k] > 0 and abs(got[k] - exp[k]) <= 1e-12 * exp[k] for k in exp) and abs(sum(got.values()) - 1) <= 1e-12
         res.outcomes["mix-ok" if ok else "mix-WRONG"] += 1
         if not ok:
             res.violation("C14|mass_fractions|definition|substances=%s" % how, "mass_fractions(%r, substances: %s) = %r, expected %r" % (stoich, how, got, exp), dict(layer="M", keys=list(keys), coeffs=list(coeffs)), got, exp)
